@@ -35,6 +35,7 @@ pub struct Stats {
     pub classes: BTreeMap<String, u64>,
     pub per_config: BTreeMap<String, u64>,
     pub samples: Vec<String>,
+    pub sample_final: bool,
     pub avoided: u64,
     pub desyncs: u64,
     pub first_desync: Option<String>,
@@ -176,7 +177,12 @@ fn account(stats: &mut Stats, task: &Task, out: &CaseOut, picks: &[u32], trace: 
     *stats.per_config.entry(task.entry.name.to_string()).or_default() += 1;
     stats.avoided += out.avoided as u64;
     if out.nontrivial {
-        if stats.nontrivial.insert(hash_case(task.entry.name, task.shape, picks)) && stats.samples.is_empty() {
+        // one sample per task: the first non-trivial case, replaced once by a later one whose hash
+        // falls into a 1/32 slot (so that the samples do not all show the first operation of the odometer)
+        let hc = hash_case(task.entry.name, task.shape, picks);
+        if stats.nontrivial.insert(hc) && (stats.samples.is_empty() || (!stats.sample_final && hc % 32 == 0)) {
+            stats.sample_final = !stats.samples.is_empty();
+            stats.samples.clear();
             stats.samples.push(trace.to_string());
         }
     }
